@@ -11,8 +11,8 @@ V = Path(__file__).resolve().parent.parent
 
 
 def seeded_table():
-    rows = ["| seeded change (directory under `seeded/`) | property | what it needs to manifest | result of the registered quick check(s) | strengthening it triggered |",
-            "|---|---|---|---|---|"]
+    rows = ["| seeded change (directory under `seeded/`) | property | what it needs to manifest | result of the registered quick check(s) when the change was received | strengthening it triggered | final sweep (all current checks, `harness/seedsweep.py`) |",
+            "|---|---|---|---|---|---|"]
     for d in sorted((V / "seeded").iterdir()):
         m = d / "meta.json"
         if not m.exists():
@@ -34,7 +34,15 @@ def seeded_table():
         needs = (j.get("needs") or "").replace("\n", " ").replace("|", "/")
         if len(needs) > 260:
             needs = needs[:257] + "…"
-        rows.append(f"| `{d.name}` | {j.get('property')} | {needs} | {res.replace('|', '/')} | {note.replace('|', '/')} |")
+        fs = j.get("final_sweep") or {}
+        if fs.get("error"):
+            final = fs["error"]
+        elif fs:
+            final = (("VIOLATION with failing input" if fs.get("failing_input") else "VIOLATION no-failing-input-found")
+                     if fs.get("exit") == 1 else f"quiet (exit {fs.get('exit')})") + f" @ {fs.get('repo_head')}"
+        else:
+            final = ""
+        rows.append(f"| `{d.name}` | {j.get('property')} | {needs} | {res.replace('|', '/')} | {note.replace('|', '/')} | {final} |")
     return "\n".join(rows)
 
 
